@@ -131,6 +131,8 @@ func replayOnRealCode(run *checkRun, o *Obligation, base string) (string, bool) 
 	switch o.Func {
 	case "(*dataReader).Read":
 		return replayDataReader(run, o)
+	case "(*lineLimitReader).Read":
+		return replayLineLimiter(run, o)
 	}
 	return "replay: no replay harness for this function shape (handler-level obligation)\n", false
 }
@@ -271,4 +273,156 @@ func TestGovcReplay(t *testing.T) {
 
 func runSelftest(verif, repo string, args []string, verbose bool) int {
 	return selftest(verif, repo, args, verbose)
+}
+
+// replayLineLimiter: the verifier's model fixes the pre-state of the limiter (limit, run length so
+// far, size of the caller's buffer); what the underlying reader returns is havoc in the model, so the
+// replay searches it: the real Read is run from that pre-state on every source over {LF, x} of up to
+// 7 octets (scaled down to a limit of at most 6 so that the search is exhaustive), and every clause
+// of the contract is evaluated on the outcome by a Go oracle written from the contract text.
+func replayLineLimiter(run *checkRun, o *Obligation) (string, bool) {
+	m := o.Model
+	limit := modelInt(m, "r.LineLimit", -1)
+	cur := modelInt(m, "r.curLineLength", 0)
+	lb := modelInt(m, "len(b)", 4)
+	grid := limit < 0 // no model (the solver gave no counterexample): search a grid of pre-states instead
+	if limit < 0 {
+		limit = 0
+	}
+	if limit > 6 {
+		// keep the distance of the run length to the limit
+		d := limit - cur
+		limit = 6
+		cur = limit - d
+	}
+	if cur < 0 {
+		cur = 0
+	}
+	if cur > limit+2 {
+		cur = limit + 2
+	}
+	if lb < 1 || lb > 8 {
+		lb = 8
+	}
+	src := fmt.Sprintf(`package smtp
+
+import (
+	"bytes"
+	"fmt"
+	"testing"
+)
+
+func govcRun(a []byte, c0 int, i int) int {
+	c := c0
+	for k := 0; k < i; k++ {
+		if a[k] == 10 {
+			c = 0
+		}
+		c++
+	}
+	return c
+}
+
+func TestGovcReplay(t *testing.T) {
+	type pre struct{ limit, cur0, lb int }
+	pres := []pre{{%d, %d, %d}}
+	if %v {
+		pres = nil
+		for l := 0; l <= 4; l++ {
+			for c := 0; c <= l+2; c++ {
+				for _, b := range []int{1, 3, 8} {
+					pres = append(pres, pre{l, c, b})
+				}
+			}
+		}
+	}
+	var srcs [][]byte
+	var rec func(p []byte)
+	rec = func(p []byte) {
+		srcs = append(srcs, append([]byte{}, p...))
+		if len(p) == 7 {
+			return
+		}
+		rec(append(p, 10))
+		rec(append(p, 'x'))
+	}
+	rec(nil)
+	tried := 0
+	for _, p := range pres {
+	limit, cur0, lb := p.limit, p.cur0, p.lb
+	for _, s := range srcs {
+		if len(s) == 0 {
+			continue
+		}
+		tried++
+		r := &lineLimitReader{R: bytes.NewReader(s), LineLimit: limit, curLineLength: cur0}
+		b := make([]byte, lb)
+		n, err := r.Read(b)
+		got := len(s) // what the source handed over is still in b
+		if lb < got {
+			got = lb
+		}
+		bad := ""
+		switch {
+		case n < 0 || n > len(b):
+			bad = "count"
+		case cur0 > limit && limit > 0 && !(err == ErrTooLongLine && n == 0):
+			bad = "sticky"
+		case err == ErrTooLongLine && !(limit > 0 && n == 0 && cur0 > limit):
+			bad = "refusal-justified"
+		case limit == 0 && (r.curLineLength != cur0 || err == ErrTooLongLine):
+			bad = "unlimited-transparent"
+		}
+		if bad == "" && err == nil && limit > 0 {
+			for k := 0; k <= n; k++ {
+				if govcRun(b, cur0, k) > limit {
+					bad = "delivered-within-limit"
+				}
+			}
+			if bad == "" && r.curLineLength <= limit && r.curLineLength != govcRun(b, cur0, n) {
+				bad = "tracks-run"
+			}
+			if bad == "" && r.curLineLength > limit && cur0 <= limit {
+				over := false
+				for k := 1; k <= got; k++ {
+					if govcRun(b, cur0, k) > limit {
+						over = true
+					}
+				}
+				if !over {
+					bad = "limit-passed-only-by-a-too-long-run"
+				} else if n != 0 && b[n-1] != 10 {
+					bad = "nothing-of-the-too-long-line-is-handed-out"
+				}
+			}
+		}
+		if bad != "" {
+			fmt.Printf("REPLAY clause %%s fails on the real code\n", bad)
+			fmt.Printf("REPLAY pre-state: LineLimit=%%d curLineLength=%%d len(b)=%%d; the underlying reader returns %%q\n", limit, cur0, lb, s)
+			fmt.Printf("REPLAY real code: n=%%d err=%%v curLineLength=%%d rest=%%q b=%%q\n", n, err, r.curLineLength, r.rest, b[:got])
+			fmt.Println("REPLAY-RESULT: reproduced (real code violates the contract on this input)")
+			return
+		}
+	}
+	}
+	fmt.Printf("REPLAY searched %%d runs from %%d pre-states: no clause fails\n", tried, len(pres))
+	fmt.Println("REPLAY-RESULT: not reproduced")
+}
+`, limit, cur, lb, grid)
+	out, err := runOverlayTest(run.w.repo, "zz_govc_replay_test.go", src, 90*time.Second)
+	var keep []string
+	for _, l := range strings.Split(out, "\n") {
+		if strings.HasPrefix(l, "REPLAY") {
+			keep = append(keep, l)
+		}
+	}
+	if len(keep) == 0 {
+		msg := ""
+		if err != nil {
+			msg = err.Error()
+		}
+		return "replay: the harness did not run: " + msg + "\n" + truncate(out, 1500) + "\n", false
+	}
+	rep := "replay on the real code (go test -overlay, nothing written to the repository; model-guided exhaustive search of what the underlying reader returns):\n" + strings.Join(keep, "\n") + "\n"
+	return rep, strings.Contains(out, "REPLAY-RESULT: reproduced")
 }
